@@ -507,7 +507,10 @@ def cycseed(repo, res, rule="CYCSEED"):
         r = A.resolve(c["recv"], envs.get(id(c)))
         if r[0] == "local":
             loops = [g for g in A.guards_of(c, pm) if g[0]["k"] == "ForLoop"]
-            if loops and A.resolve(loops[0][0]["iter"], envs.get(id(loops[0][0])))[0] == "param":
+            itp = A.resolve(loops[0][0]["iter"], envs.get(id(loops[0][0]))) if loops else ("none",)
+            while itp[0] in ("ref", "deref") or (itp[0] == "mcall" and itp[1] in ("iter", "into_iter")):
+                itp = itp[1] if itp[0] != "mcall" else itp[2]
+            if loops and itp[0] == "param":
                 v = A.resolve(c["args"][1], envs.get(id(c)))
                 ok = "get_nonterm_refs" in A.show(v)
     res.check(ok, rule, f"{rule}:{fq}:graph-complete", "one vertex per plain definition, edges from get_nonterm_refs(definition body)", fn.loc())
@@ -522,12 +525,26 @@ def cycseed(repo, res, rule="CYCSEED"):
             gs = [g for g in A.guards_of(errs[0], pm2) if g[0]["k"] == "If"]
             # the current path is the `&mut Vec<(name, span)>` parameter
             pname = next((prm["name"] for prm in f2.params if "Vec<(" in "".join((prm.get("ty") or "").split())), "path")
+            has = lambda t: re.search(r"(?<![A-Za-z0-9_])%s(?![A-Za-z0-9_])" % re.escape(pname), t) is not None
             ctext = cond_text(repo, f2, gs[0][0]["cond"]) if gs else ""
-            if gs and pname not in ctext:
+            if gs and not has(ctext):
                 # the test may be a local computed from the path just before (`let on_path = path.iter().any(..)`)
                 envs2 = A.collect_envs(f2)
                 ctext = A.show(A.resolve(gs[0][0]["cond"], envs2.get(id(gs[0][0]["cond"])) or envs2.get(id(gs[0][0]))))
-            onpath = bool(gs) and pname in ctext and "any" in ctext
+            searched = "any" in ctext
+            if gs and not has(ctext):
+                # or a flag set by a search loop over the path (`let mut on_path = false; for e in path.iter() { if .. { on_path = true; break } }`)
+                cnd = gs[0][0]["cond"]
+                while cnd["k"] in ("Paren",):
+                    cnd = cnd["expr"]
+                if cnd["k"] == "Path":
+                    for asg in A.walk(f2.body):
+                        if asg["k"] == "Assign" and asg["left"].get("k") == "Path" and asg["left"]["path"] == cnd["path"] and asg["right"].get("v") is True:
+                            lps = [g for g in A.guards_of(asg, pm2) if g[0]["k"] == "ForLoop"]
+                            if lps and A.before(lps[0][0], gs[0][0]):
+                                ctext = cond_text(repo, f2, lps[0][0]["iter"])
+                                searched = True
+            onpath = bool(gs) and has(ctext) and searched
             pg = A.preceding_guards(recs[0], pm2)
             vname = next((prm["name"] for prm in f2.params if "UstrSet" in (prm.get("ty") or "")), "visited")
             skip = [x for x in pg if x[0] == "if" and (vname + ".contains") in cond_text(repo, f2, x[1]).replace(" ", "")]
